@@ -1,10 +1,10 @@
 package main
 
 import (
-	"sort"
 	"fmt"
 	"go/token"
 	"go/types"
+	"sort"
 
 	"golang.org/x/tools/go/ssa"
 )
